@@ -3,6 +3,7 @@ import SynKitModel.Gml
 import SynKitModel.Match
 import SynKitProofs.ReprLemmas
 import SynKitProofs.ReprHLemmas
+import SynKitProofs.ImplicitHLemmas
 import SynKitProofs.GmlLemmas
 import SynKitProofs.GmlRcLemmas
 import SynKitProofs.GmlIsoLemmas
@@ -102,6 +103,44 @@ example :
                                   (7, [("element", .str "H"), ("hcount", .num 0)])],
                         edges := [(1, 5, [("order", .num 2)]), (6, 7, [("order", .num 2)])] }
     G.WF ∧ HTyped G ∧ HValence G ∧ (hToImplicit G).ids = [1, 6, 7] ∧ totalH G = 6 ∧ totalH (hToImplicit G) = 6 := by
+  decide
+
+/-- **C10, hydrogens: count, `implicit_hydrogen`** (the function `graph_to_smi(g, preserve_atom_maps)`
+applies; model `implicitHydrogen`, which follows the F29 repair, draft fix 0022).  On a simple graph
+whose hydrogen nodes carry no count of their own and have at most one heavy neighbour (`HValence`,
+the guard of `totalH_hToImplicit`), folding the non-preserved hydrogens into their heavy neighbours
+keeps the number of hydrogens of the molecule, for *every* `preserve` list: hydrogens without heavy
+neighbour (H2, H+, H-, H·) are not removed.  No typing guard is needed. -/
+theorem totalH_implicitHydrogen (G : LGraph) (preserve : List Nat) (hwf : G.WF) (hv : HValence G) :
+    totalH (implicitHydrogen G preserve) = totalH G :=
+  ImplH.totalH_implicitH G hwf preserve (ImplH.foldGuard_of_hValence G preserve hv)
+
+/-- **C10, hydrogens: `implicit_hydrogen` keeps free hydrogens** (F29 repair).  A hydrogen node
+without a non-hydrogen neighbour is a node of the result, with its whole attribute dict, whatever
+the `preserve` list is. -/
+theorem implicitHydrogen_free_hydrogen_stays (G : LGraph) (preserve : List Nat) (hn : G.ids.Nodup)
+    (p : Nat × Attrs) (hp : p ∈ G.nodes) (hH : isH p.2 = true) (hf : hasHeavyNbr G p.1 = false) :
+    p.1 ∈ (implicitHydrogen G preserve).ids ∧ (implicitHydrogen G preserve).attrs p.1 = p.2 := by
+  have hattr := attrs_eq_of_mem G hn p hp
+  have hmem : p.1 ∈ (implicitHydrogen G preserve).ids :=
+    (ImplH.mem_implicitH_ids G hn preserve p.1).2
+      ⟨List.mem_map.2 ⟨p, hp, rfl⟩, (ImplH.stays_iff G hn preserve p.1).2 (Or.inr (Or.inr hf))⟩
+  exact ⟨hmem, by rw [ImplH.implicitH_attrs_H G hn preserve p.1 hmem (by rw [hattr]; exact hH), hattr]⟩
+
+/-- Non-vacuity: CH₃–H with the fourth hydrogen explicit, next to H₂ and H⁺, none of them preserved
+(`preserve = [99]`): the guard holds, the bonded hydrogen is really folded in (node 5 disappears),
+H₂ and H⁺ stay, the H–H bond stays, and the count is 7 before and after. -/
+example :
+    let G : LGraph := { nodes := [(1, [("element", .str "C"), ("hcount", .num 6), ("atom_map", .num 2)]),
+                                  (5, [("element", .str "H"), ("hcount", .num 0), ("atom_map", .num 10)]),
+                                  (6, [("element", .str "H"), ("hcount", .num 0), ("atom_map", .num 12)]),
+                                  (7, [("element", .str "H"), ("hcount", .num 0), ("atom_map", .num 14)]),
+                                  (9, [("element", .str "H"), ("hcount", .num 0), ("charge", .num 2), ("atom_map", .num 18)])],
+                        edges := [(1, 5, [("order", .num 2)]), (6, 7, [("order", .num 2)])] }
+    G.WF ∧ HValence G ∧ implDomain G = true ∧ hasHeavyNbr G 5 = true ∧ hasHeavyNbr G 6 = false ∧ hasHeavyNbr G 9 = false ∧
+      (implicitHydrogen G [99]).ids = [1, 6, 7, 9] ∧ hcnt ((implicitHydrogen G [99]).attrs 1) = 4 ∧
+      (implicitHydrogen G [99]).edges.map (fun e => (e.1, e.2.1)) = [(6, 7)] ∧
+      totalH G = 7 ∧ totalH (implicitHydrogen G [99]) = 7 := by
   decide
 
 /-- The first half of the guard is literally `has_XH`: it is false iff every bond joins two
